@@ -33,7 +33,7 @@ def from_model_path(path):
             cur = node["body"]
         elif op == "mark":
             cur.append({"t": "M"})
-        elif op in ("throw", "thrownested"):
+        elif op in ("throw", "thrownested", "throwcmpnested"):        # (throwcmpnested: run as a plain throw; kinds whose Cmp raises are exercised by the pairs matrix)
             e = KIND[a["e"]]
             cur.append({"t": "X" if op == "throw" else "Y", "e": e})       # Y: a message argument's Show throws and handles another kind
             while frames and not (frames[-1][1] == "body" and matches(frames[-1][0]["mask"], e)):
